@@ -64,22 +64,27 @@ class LazySuite(Suite):
     def cases(self, rng, tier, widen):
         out = []
         big = tier == "thorough" or widen
-        for _ in range(60 if big else 15):
+        for _ in range(60 if big else 25):
             n = rng.choice([0, 1, 2, 3, 5, 9])
             ops = []
             for _ in range(rng.randint(1, 12)):
                 r = rng.random()
-                if r < 0.6:
+                if r < 0.45:
                     ops.append(("g", rng.randint(-n - 2, n + 1)))
-                elif r < 0.7 and n:
+                elif r < 0.55 and n:
                     ops.append(("l", rng.randrange(n)))
-                elif r < 0.8:
+                elif r < 0.63:
                     ops.append(("i",))
-                elif r < 0.9:
+                elif r < 0.7:
                     ops.append(("n",))
                 else:
                     a, b, c = rng.choice([None, rng.randint(-n - 1, n + 1)]), rng.choice([None, rng.randint(-n - 1, n + 1)]), rng.choice([None, 1, 2, -1])
-                    ops.append(("s", a, b, c, rng.randint(-3, 3)))
+                    key = rng.randint(-3, 3)
+                    ops.append(("s", a, b, c, key))
+                    idxs = list(range(*slice(a, b, c).indices(n)))
+                    if idxs and rng.random() < 0.6:      # … and the same file again through the population itself, or through a second slice
+                        j = idxs[key] if -len(idxs) <= key < len(idxs) else rng.choice(idxs)
+                        ops.append(rng.choice([("g", j), ("g", j - n), ("s", j, j + 1, None, 0)]))
             out.append({"class": f"n{n}", "n": n, "ops": ops, "pop": rng.random() < 0.7, "nested": rng.random() < 0.3})
         return out
 
